@@ -42,12 +42,24 @@ def gen_ll1ish(rng):
             "hash": G.assign_hashes(rng, names, mode), "hashmode": mode, "profile": "ll1ish", "ctor_sets": False}
 
 
+def _dollar(rng, c):
+    """a user terminal spelled like the parser's end-of-input marker"""
+    if c["terms"] and rng.chance(0.1):
+        t = rng.pick(c["terms"])
+        ren = lambda x: "$" if x == t else x
+        c = dict(c, terms=[ren(x) for x in c["terms"]], prods=[[h, [ren(x) for x in b]] for h, b in c["prods"]])
+        if c.get("hash"):
+            c["hash"] = dict(c["hash"])
+            c["hash"]["N:$"] = c["hash"].get("N:" + t, 5)
+    return c
+
+
 def gen(rng, tier):
     for _ in range(20):
         c = gen_ll1ish(rng) if rng.chance(0.6) else G.gen_cfg(rng, max_prods=6)
         c = G.prune_useless(c)
         if c is not None and c["prods"]:
-            return c
+            return _dollar(rng, c)
     return {"vars": ["S"], "terms": ["a"], "start": "S", "prods": [["S", ["a"]]], "valmode": "str", "hash": None,
             "hashmode": "plain", "profile": "fallback", "ctor_sets": False}
 
@@ -90,6 +102,8 @@ def run(case, out):
         out.probe("nullable_nonempty_body")
     if any(b and b[0] == h for h, b in ref.prods):
         out.probe("left_recursion")
+    if "$" in case["terms"]:
+        out.probe("terminal_spelled_like_end_marker")
     cfg = G.build(case)
     out.sig = G.signature(cfg)
     fs = out.call("get_first_set", LLOneParser(cfg).get_first_set)
